@@ -2,6 +2,7 @@
 from ..main import run_rule
 from ..flow import (resolver, peel, guards_of, rel_fact, aggregates, show, edge_facts, const_defs,
                     call_guarded, backward, _rv_locals)
+from ..symexec import SymExec
 from ..facts import AnchorMissing, op_const_int
 
 LEVEL = ('narrow: decides four code-shape facts two of whose violations were confirmed to change the '
@@ -22,8 +23,10 @@ LEVEL = ('narrow: decides four code-shape facts two of whose violations were con
          'several profiles are the union of their parts (H14 = C17-L21). No loop-free path through a '
          'from-scratch builder avoids the capacity comparison (H3 MUST-PASS); tasks leave a profile '
          'only where a mandatory part is undone (H15); the per-profile explanation cache is '
-         'initialised from the profile only (H16). Everything else about the 144 variants — in '
-         'particular the numbers they compute and zero-duration tasks — is NOT decided')
+         'initialised from the profile only (H16). create_tasks keeps a task iff usage and duration '
+         'are both positive (H17 TABLE; zero-duration defect D21 repaired). Everything else about the '
+         '144 variants — in particular the numbers they compute and zero-duration tasks — is NOT '
+         'decided')
 TECHNIQUE = "static analysis: must-pass / sentinel taint / dominance rules over rustc MIR"
 
 
@@ -566,6 +569,60 @@ def h11(led, rid, ctx):
               % bad)
 
 
+def h17(led, rid, ctx):
+    """TABLE: create_tasks keeps a task iff it can occupy the resource at some time point, i.e. iff
+    resource_usage > 0 and processing_time > 0.  A task of duration 0 that is kept is given a
+    mandatory part / propagated against profiles although it runs at no time point (solutions are
+    lost with allow_holes under the over-interval methods: findings/repro/c08_zero_duration_demo.rs)."""
+    from ..predalg import ev, Unknown, feasible
+    lib = ctx.lib
+    fs = [f for f in lib.fns.values() if f.name == "create_tasks" and "/cumulative/" in f.file and f.kind != "Closure"]
+    if len(fs) != 1:
+        raise AnchorMissing("cumulative create_tasks")
+    f = fs[0]
+    clos = []
+    for g in f.closures:
+        rets = [p for p in SymExec(g, max_paths=64).run() if not p.diverged and p.ret is not None]
+        if rets and all(peel(p.ret, calls=None).k == "agg" and (peel(p.ret, calls=None).a or "").endswith("Option") for p in rets) \
+                and {peel(p.ret, calls=None).b for p in rets} == {"Some", "None"}:
+            clos.append((g, rets))
+    if len(clos) != 1:
+        raise AnchorMissing("the selecting closure of create_tasks (found %d)" % len(clos))
+    g, rets = clos[0]
+    bad = None
+    rows = 0
+    try:
+        for usage in (0, 1, 2):
+            for dur in (0, 1, 2):
+                def leaf(e, usage=usage, dur=dur):
+                    fl = e.fields() if e.k == "proj" else []
+                    if fl and fl[-1] == "resource_usage":
+                        return usage
+                    if fl and fl[-1] == "processing_time":
+                        return dur
+                    return None
+                kept = None
+                for p in rets:
+                    if feasible(p.conds, leaf):
+                        for cond, val, others in p.conds:
+                            if cond.k != "discr":
+                                ev(cond, leaf)
+                        kept = peel(p.ret, calls=None).b == "Some"
+                        break
+                if kept is None:
+                    raise Unknown("no path for usage=%d, duration=%d" % (usage, dur))
+                rows += 1
+                want = usage > 0 and dur > 0
+                if kept != want and bad is None:
+                    bad = ("%s a task with resource usage %d and duration %d" % ("keeps" if kept else "drops", usage, dur))
+    except Unknown as u:
+        bad = "selects tasks by a test this rule cannot evaluate (%s)" % u
+    led.check(bad is None, rid, "create_tasks:keeps-exactly-the-occupying-tasks", g.span, "%d (usage, duration) rows" % rows,
+              "create_tasks %s: a task occupies the resource iff both are positive; a kept task of duration 0 is "
+              "treated as if it ran at its start time (valid assignments are rejected), a dropped task with both "
+              "positive is not constrained at all" % bad)
+
+
 def h13(led, rid, ctx):
     """incremental insertion: for every existing profile the new mandatory part overlaps, the gap
     before it and the overlap with it are handled — no way round the loop skips
@@ -616,6 +673,7 @@ def run(ctx, led):
     run_rule(led, "H10", "the cached profile explanation is reset whenever the profile changes (shared with C17-L12)", _C17.l12, ctx)
     run_rule(led, "H11", "WITNESS-POINT of pointwise hole explanations lies in the profile and in the task's run", h11, ctx)
     run_rule(led, "H13", "incremental insertion handles the gap and the overlap for every overlapped profile (MUST-PASS on the loop)", h13, ctx)
+    run_rule(led, "H17", "TABLE: create_tasks keeps a task iff usage > 0 and duration > 0 (zero-duration tasks occupy no time point)", h17, ctx)
     run_rule(led, "H16", "CACHE-KEY: the per-profile explanation cache is initialised from the profile only (shared with C17-L25)", _C17.l25, ctx)
     run_rule(led, "H15", "WHO-MAY-SHRINK: tasks leave a resource profile only where a mandatory part is undone (shared with C17-L24)", _C17.l24, ctx)
     run_rule(led, "H14", "reasons assembled from several profiles are the union of their parts (shared with C17-L21)", _C17.l21, ctx)
